@@ -3,6 +3,7 @@ from __future__ import annotations
 
 import copy
 import io
+import mmap
 import random
 
 from sim import gen
@@ -17,7 +18,9 @@ TIERS = {"quick": {"runs": 60000, "budget_s": 75, "chunk": 100, "min_runs": 500}
 RULE = ("case = seeded (pointer width 8/16/32/64 x endian x compiled x align; root struct mixing scalars with T*, char*, T**, "
         "pointer arrays; memory image with targets at generated absolute addresses incl. null, dangling and overlapping ones; "
         "history of 3-14 ops on ONE stream: parse root, dereference, re-dereference, pointer arithmetic, attribute access through "
-        "the pointer, str(), raw seek/read between dereferences, parse another root, dumps, default-constructed pointers). "
+        "the pointer, str(), raw seek/read between dereferences, parse another root, dumps, default-constructed pointers); the "
+        "stream is a BytesIO, a logging stream, a BufferedReader or an anonymous mmap; the first root is also parsed from "
+        "bytes/bytearray/memoryview objects; 20% of the roots carry pointers to a target whose length is a field of the root. "
         "evaluations = ops checked. distinct_nontrivial = distinct (width, endian, compiled, target kind, address class, kinds of "
         "the two preceding ops) tuples with at least one stream operation between parse and dereference.")
 ASSUMPTIONS = [
@@ -26,12 +29,14 @@ ASSUMPTIONS = [
     "The stream position after a FAILING dereference is not constrained (the statement is silent).",
     "Reference for a dereference = the library's own stand-alone parse of the target type from image[address:].",
 ]
-REAL = ["dissect.cstruct Pointer, readers (compiled/interpreted)", "io.BytesIO", "bytes/bytearray/memoryview inputs (buffer entry points)"]
+REAL = ["dissect.cstruct Pointer, readers (compiled/interpreted)", "io.BytesIO", "io.BufferedReader", "mmap.mmap (anonymous)", "bytes/bytearray/memoryview inputs (buffer entry points)"]
 STUBS = ["SimStream (logging seekable stream) for half of the cases"]
 
 SC = ["uint8", "int8", "uint16", "int16", "uint32", "int32", "uint64", "int64", "uint24", "float"]
 W = {"uint8": 1, "uint16": 2, "uint32": 4, "uint64": 8}
-TSTRUCT = "struct T { uint16 a; uint8 b; uint8 c[2]; };\nstruct N { uint16 v; N *next; uint8 *q; };\n"
+TSTRUCT = ("struct T { uint16 a; uint8 b; uint8 c[2]; };\nstruct N { uint16 v; N *next; uint8 *q; };\n"
+           # a target whose length is given by a field of the structure HOLDING the pointer (needs the parse context)
+           "typedef uint8 CB[cn & 3];\n")
 TSIZE = 5
 
 
@@ -58,6 +63,11 @@ def gen_case(rng: random.Random, tier: str):
             fields.append({"name": f"p{i}", "k": "ptrarr", "t": rng.choice(["uint8", "uint32", "T"]), "depth": 1, "n": rng.randint(1, 3)})
     if not any(f["k"] != "scalar" for f in fields):
         fields.append({"name": "pz", "k": "ptr", "t": "uint16", "depth": 1})
+    if rng.random() < 0.2:
+        fields.insert(0, {"name": "cn", "k": "scalar", "t": "uint8"})
+        for i in range(rng.randint(1, 2)):
+            fields.append(rng.choice([{"name": f"c{i}", "k": "ptr", "t": "CB", "depth": 1}, {"name": f"c{i}", "k": "ptr", "t": "CB", "depth": 2},
+                                      {"name": f"c{i}", "k": "ptrarr", "t": "CB", "depth": 1, "n": 2}]))
     # addresses per pointer slot
     slots = []
     for f in fields:
@@ -98,7 +108,8 @@ def gen_case(rng: random.Random, tier: str):
             ops.append({"op": "str", "s": s})
     return {"cfg": cfg, "fields": fields, "slots": slots, "msize": msize, "img_seed": rng.getrandbits(32),
             "prewidth": rng.choice(list(W)) if rng.random() < 0.3 else None,
-            "root_at": rng.getrandbits(16), "kind": rng.choice(["bytesio", "sim"]), "ops": ops}
+            "root_at": rng.getrandbits(16), "kind": rng.choice(["bytesio", "sim", "sim", "mmap", "buffered"]), "ops": ops,
+            "nul_at_end": rng.random() < 0.7}
 
 
 def render(fields):
@@ -118,7 +129,7 @@ def _order(e):
     return "little" if e == "<" else "big"
 
 
-def _target_ref(cs, tname, depth, image, addr):
+def _target_ref(cs, tname, depth, image, addr, ctx=None):
     """Stand-alone parse of the target at an absolute address (library reference)."""
     if depth > 1:
         t = cs._make_pointer(cs.resolve(tname)) if depth == 2 else None
@@ -132,6 +143,8 @@ def _target_ref(cs, tname, depth, image, addr):
     try:
         if tname == "char":
             v = cs.char[None](s)
+        elif tname == "CB":
+            v = t._read(s, dict(ctx or {}))
         else:
             v = t(s)
     except Exception as e:  # noqa: BLE001
@@ -228,11 +241,27 @@ def run_case(case, stats):
             o = ro + offs[fname] + j * w
             image[o:o + w] = a.to_bytes(w, order)
     # make some char targets NUL terminated within the image
-    image[-1] = 0
+    if case.get("nul_at_end", True):
+        image[-1] = 0
+    elif image[-1] == 0:
+        image[-1] = 0x41  # no terminator before the end of the data: a string target near the end is truncated input
+        stats.count("probe.image_without_terminator_at_end")
     image = bytes(image)
     fmap = {f["name"]: f for f in fields}
+    cur_ctx = {}
 
-    stream = io.BytesIO(image) if case["kind"] == "bytesio" else SimStream(image)
+    if case["kind"] == "bytesio":
+        stream = io.BytesIO(image)
+    elif case["kind"] == "mmap":
+        stream = mmap.mmap(-1, len(image))
+        stream.write(image)
+        stream.seek(0)
+        stats.count("probe.stream_kind_mmap")
+    elif case["kind"] == "buffered":
+        stream = io.BufferedReader(io.BytesIO(image), buffer_size=1 + case["img_seed"] % 29)
+        stats.count("probe.stream_kind_buffered_reader")
+    else:
+        stream = SimStream(image)
     cur = None  # current parsed root
     cur_addrs = {}
     cur_at = None
@@ -261,12 +290,19 @@ def run_case(case, stats):
         if addr == 0:
             exp = ("exc", "NullPointerDereference")
         else:
-            exp = _target_ref(cs_ref, f["t"], depth, img, addr)
+            exp = _target_ref(cs_ref, f["t"], depth, img, addr, ctx=cur_ctx)
         stats.count("evaluations")
+        if own and case["kind"] == "mmap" and got == ("exc", "ValueError") and (addr > len(img) or (cfg["align"] and addr + 64 > len(img))):
+            # a memory map refuses to be positioned beyond its end (BytesIO and files allow it): a zero-length target at a
+            # dangling address cannot be "read" there, and the tail padding of an aligned target at the very end of the data
+            # cannot be skipped
+            stats.count("probe.mmap_seek_beyond_end_exempt")
+            return got, None
         if got[0] == "exc":
             stats.count("fault.deref_raised_" + got[1])
-        if exp[0] == "exc" and got[0] == "exc" and addr != 0 and got[1] != "NullPointerDereference":
-            pass  # unreadable target: which error a dangling address raises is not specified
+        if (exp[0] == "exc" or addr > len(img)) and got[0] == "exc" and addr != 0 and got[1] != "NullPointerDereference":
+            pass  # unreadable target: which error a dangling address raises is not specified (an address beyond the end of
+            # the data may be unreachable for the stream even when the target type is empty: OverflowError, ValueError)
         elif got != exp:
             raise Violation("dereference", "differs_from_standalone_parse_at_address",
                             f"{label}: *({f['t']}{'*' * depth})0x{addr:x} gave {got}, stand-alone parse of image[0x{addr:x}:] gives {exp}")
@@ -300,6 +336,8 @@ def run_case(case, stats):
                                                                f"as unsigned {order} {w}-byte = {expv}")
             cur, cur_at = r, at
             since_parse_stream_ops = 0
+            if "cn" in offs:
+                cur_ctx = {"cn": image[at + offs["cn"]]}
             if op.get("buf"):
                 # the buffer entry points: the same root bytes at offset 0 of a bytes-like object (addresses are absolute
                 # offsets into that object); every pointer of the result is followed
@@ -422,7 +460,9 @@ def run_case(case, stats):
                     except Exception as e:  # noqa: BLE001
                         got = ("exc", type(e).__name__)
                     stats.count("evaluations")
-                    if exp[0] == "val":
+                    if case["kind"] == "mmap" and got == ("exc", "ValueError") and cfg["align"] and a + 64 > len(image):
+                        stats.count("probe.mmap_seek_beyond_end_exempt")
+                    elif exp[0] == "val":
                         want = ("val", exp[1][2][0][1][2], exp[1][2][1][1][2])
                         if got != want:
                             raise Violation("dereference", "attribute_through_pointer", f"p.a,p.b = {got}, target parses to {want}")
@@ -432,18 +472,23 @@ def run_case(case, stats):
                         raise Violation("dereference", "attribute_through_pointer", f"target unreadable ({exp}) but p.a gave {got}")
             elif k == "str":
                 if a != 0 and f["depth"] == 1:
-                    exp = _target_ref(cs_ref, f["t"], f["depth"], image, a)
+                    exp = _target_ref(cs_ref, f["t"], f["depth"], image, a, ctx=cur_ctx)
                     try:
                         got = str(p)
                         ok = exp[0] != "exc"
                         if ok and f["depth"] == 1:
-                            want = str(cs_ref.char[None](image[a:]) if f["t"] == "char" else cs_ref.resolve(f["t"])(image[a:]))
+                            if f["t"] == "char":
+                                want = str(cs_ref.char[None](image[a:]))
+                            elif f["t"] == "CB":
+                                want = str(cs_ref.resolve("CB")._read(io.BytesIO(image[a:]), dict(cur_ctx)))
+                            else:
+                                want = str(cs_ref.resolve(f["t"])(image[a:]))
                             if got != want:
                                 raise Violation("dereference", "str_of_pointer", f"str(p) = {got!r}, str(target) = {want!r}")
                     except Violation:
                         raise
                     except Exception as e:  # noqa: BLE001
-                        if exp[0] != "exc":
+                        if exp[0] != "exc" and not (case["kind"] == "mmap" and isinstance(e, ValueError) and (a > len(image) or (cfg["align"] and a + 64 > len(image)))):
                             raise Violation("dereference", "str_of_pointer", f"str(p) raised {type(e).__name__} but target parses: {exp}")
                     stats.count("evaluations")
         elif k == "seek":
